@@ -395,6 +395,21 @@ def _():
     return ste_item('k_gumbel_st', VQ, 'gumbel_sample', 'one_hot', [('one_hot', 'h', 'F'), ('π1', 'p', 'F')])
 
 
+@item('k_lens_to_mask')
+def _():
+    """lens_to_mask(lens, max_length): position n of a row is valid iff n < lens[row]  (`seq < lens[:, None]` with seq = arange(max_length))"""
+    f = find_func(VQ, 'lens_to_mask')
+    if f.decorator_list:
+        raise GenError('lens_to_mask carries decorators: ' + ', '.join(ast.unparse(d) for d in f.decorator_list))
+    seq = ast.unparse(assigned_expr(VQ, 'lens_to_mask', 'seq'))
+    ret = ast.unparse(return_expr(VQ, 'lens_to_mask'))
+    if seq != 'torch.arange(max_length, device=lens.device)' or ret != 'seq < lens[:, None]':
+        raise GenError(f'lens_to_mask changed: seq = {seq}; return {ret}')
+    txt = G.HEADER.format(comment='vector_quantize_pytorch.py:lens_to_mask  (entry [row][n] of `arange(max_length) < lens[:, None]`)')
+    txt += 'Definition k_lens_to_mask (n len : Z) : bool := Z.ltb n len.\n'
+    return txt
+
+
 @item('p_lfq_codec')
 def _():
     rows = [ast.unparse(assigned_expr(LFQF, 'LFQ.forward', 'indices', 0)),
